@@ -175,6 +175,34 @@ fn gen_ts(rng: &mut Rng) -> String {
     }
 }
 
+/// a whole notarized V2 transaction: root + (k-1) direct children; mostly valid, one limit pushed to its boundary
+fn gen_tx2(rng: &mut Rng, cfg_s: &str, cfg: &TransactionValidationConfig, out: &mut dyn Write) {
+    let (req, net0) = gen_net(rng);
+    let k = if cfg.max_subintent_depth == 0 { 1 } else { 1 + rng.below(5) };
+    let bps = match rng.below(5) { 0 => near(rng, cfg.min_tip_basis_points as u64), 1 => near(rng, cfg.max_tip_basis_points as u64), _ => (cfg.min_tip_basis_points as u64).max(0) }.min(u32::MAX as u64);
+    let anchor = rng.below(50_000);
+    // which limit this case aims at
+    let aim = rng.below(9);
+    let target = rng.below(k);
+    let per = cfg.max_signer_signatures_per_intent as u64;
+    let mut s = format!("tx2 {} {} {} {}", cfg_s, req, bps, k);
+    for i in 0..k {
+        let hit = i == target;
+        let net = if aim == 0 && hit && rng.chance(1, 2) { net0.wrapping_add(1) } else { net0 };
+        let st = anchor + rng.below(4);
+        let mut en = st + 4 + rng.below(cfg.max_epoch_range.clamp(1, 30));
+        if aim == 1 && hit { en = match rng.below(4) { 0 => st, 1 => st.saturating_add(cfg.max_epoch_range), 2 => st.saturating_add(cfg.max_epoch_range).saturating_add(1), _ => anchor + 3 + rng.below(3) }; }
+        if aim == 2 && hit { en = anchor + rng.below(5); }
+        let (ts_a, ts_b) = if aim == 3 { (gen_ts(rng), gen_ts(rng)) } else { ("-".to_string(), "-".to_string()) };
+        let msg = if aim == 4 && hit { near(rng, cfg.message_validation.max_plaintext_message_length as u64).min(5000).to_string() } else if rng.chance(1, 3) { rng.below(30).to_string() } else { "-".into() };
+        let refs = if aim == 5 && hit { near(rng, cfg.max_references_per_intent as u64).min(700) } else if aim == 6 { near(rng, (cfg.max_total_references as u64) / k).min(700) } else { rng.below(4) };
+        let pad = if aim == 7 && hit { near(rng, (cfg.max_instructions as u64).saturating_sub(refs + k)).min(1300) } else { rng.below(3) };
+        let sigs = if aim == 8 && hit { near(rng, per).min(40) } else if aim == 8 { match rng.below(3) { 0 => per.min(40), 1 => near(rng, (cfg.max_total_signature_validations as u64).saturating_sub(1) / k).min(per).min(40), _ => rng.below(3) } } else { rng.below(3) };
+        s += &format!(" {} {} {} {} {} {} {} {} {}", net, st, en, ts_a, ts_b, msg, refs, pad, sigs);
+    }
+    writeln!(out, "{}", s).unwrap();
+}
+
 impl Area for A {
     fn gen(&self, rng: &mut Rng, n: usize, out: &mut dyn Write) {
         for _ in 0..n {
@@ -259,11 +287,12 @@ impl Area for A {
                         }
                     }
                 }
-                _ => {
+                14 => {
                     let v = 1 + rng.below(2);
                     let n = if rng.chance(2, 3) { near(rng, cfg.max_instructions as u64) } else { rng.below(40) }.min(2500);
                     writeln!(out, "ins {} {} {}", v, cfg_s, n).unwrap();
                 }
+                _ => gen_tx2(rng, &cfg_s, &cfg, out),
             }
         }
         for l in ["h1 b - 1 2", "h1 q - 1 2 3 4", "th2 c", "th2 c 4294967296", "hs2 c - 2 1 2 3 - -", "msg 3 c none", "msg 1 c enc 3 1 0 2 1", "refs c 2 1", "h1 x:1,2,3 - 1 2 3 4", "ins 1 c x", "zzz"] {
@@ -536,6 +565,132 @@ impl Runner for R {
                 let spec = n <= cfg.max_instructions;
                 if r.is_ok() != spec {
                     return Answer::fail(ans, "ins-accept-mismatch", format!("{} instructions accepted={} but limit is {}", n, r.is_ok(), cfg.max_instructions));
+                }
+                Answer::ok(ans)
+            }
+            ["tx2", cfg, req, bps, k, rest @ ..] => {
+                let (Some(cfg), Some(req), Ok(bps), Ok(k)) = (parse_cfg(cfg), parse_req(req), bps.parse::<u32>(), k.parse::<usize>()) else { return bad() };
+                if k == 0 || k > 8 || rest.len() != 9 * k { return bad() }
+                struct I { net: u8, s: u64, e: u64, a: Option<i64>, b: Option<i64>, msg: Option<usize>, refs: usize, pad: usize, sigs: usize }
+                let mut xs: Vec<I> = vec![];
+                for c in rest.chunks(9) {
+                    let (Ok(net), Ok(s), Ok(e), Some(a), Some(b)) = (c[0].parse::<u8>(), c[1].parse::<u64>(), c[2].parse::<u64>(), parse_ts(c[3]), parse_ts(c[4])) else { return bad() };
+                    let msg = if c[5] == "-" { None } else { match c[5].parse::<usize>() { Ok(l) if l <= 100_000 => Some(l), _ => return bad() } };
+                    let (Ok(refs), Ok(pad), Ok(sigs)) = (c[6].parse::<usize>(), c[7].parse::<usize>(), c[8].parse::<usize>()) else { return bad() };
+                    if refs > 100_000 || pad > 100_000 || sigs > 1000 { return bad() }
+                    xs.push(I { net, s, e, a, b, msg, refs, pad, sigs });
+                }
+                let header = |i: usize, x: &I| IntentHeaderV2 {
+                    network_id: x.net, start_epoch_inclusive: Epoch::of(x.s), end_epoch_exclusive: Epoch::of(x.e),
+                    min_proposer_timestamp_inclusive: x.a.map(Instant::new), max_proposer_timestamp_exclusive: x.b.map(Instant::new), intent_discriminator: i as u64,
+                };
+                let message = |x: &I| match x.msg { None => MessageV2::None, Some(l) => MessageV2::Plaintext(PlaintextMessageV1 { mime_type: "text/plain".into(), message: MessageContentsV1::String("a".repeat(l)) }) };
+                let addr = |i: usize, j: usize| {
+                    let mut a = [EntityType::GlobalPreallocatedSecp256k1Account as u8; NodeId::LENGTH];
+                    a[1..9].copy_from_slice(&(((i + 1) * 100_000 + j) as u64).to_le_bytes());
+                    ComponentAddress::new_or_panic(a)
+                };
+                let keys = |i: usize, n: usize| -> Vec<Ed25519PrivateKey> { (0..n).map(|j| Ed25519PrivateKey::from_u64((1000 * (i + 1) + j + 1) as u64).unwrap()).collect() };
+                let built = catch(|| {
+                    let mut b = TransactionV2Builder::new();
+                    for (i, x) in xs.iter().enumerate().skip(1) {
+                        let child = PartialTransactionV2Builder::new()
+                            .intent_header(header(i, x))
+                            .message(message(x))
+                            .manifest_builder(|mut mb| {
+                                for j in 0..x.refs { mb = mb.call_method(addr(i, j), "m", ()); }
+                                for _ in 0..x.pad { mb = mb.drop_auth_zone_proofs(); }
+                                mb.yield_to_parent(())
+                            })
+                            .multi_sign(keys(i, x.sigs).iter())
+                            .build_minimal();
+                        b = b.add_signed_child(format!("c{}", i), child);
+                    }
+                    let x = &xs[0];
+                    let names: Vec<String> = (1..xs.len()).map(|i| format!("c{}", i)).collect();
+                    let notary = Ed25519PrivateKey::from_u64(7).unwrap();
+                    b.intent_header(header(0, x))
+                        .transaction_header(TransactionHeaderV2 { notary_public_key: notary.public_key().into(), notary_is_signatory: false, tip_basis_points: bps })
+                        .message(message(x))
+                        .manifest_builder(|mut mb| {
+                            for n in &names { mb = mb.yield_to_child(n, ()); }
+                            for j in 0..x.refs { mb = mb.call_method(addr(0, j), "m", ()); }
+                            for _ in 0..x.pad { mb = mb.drop_auth_zone_proofs(); }
+                            mb
+                        })
+                        .multi_sign(keys(0, x.sigs).iter())
+                        .notarize(&notary)
+                        .build_minimal_no_validate()
+                });
+                let tx = match built { Ok(t) => t, Err(m) => return Answer::ok(format!("build-panic {}", m)) };
+                let prepared = match tx.to_raw().map_err(|e| format!("{:?}", e)).and_then(|raw| raw.prepare(PreparationSettings::latest_ref()).map_err(|e| format!("{:?}", e))) {
+                    Ok(p) => p,
+                    Err(e) => return Answer::ok(format!("prepare-error {}", e)),
+                };
+                let v = validator(cfg, req);
+                let r = v.validate_notarized_v2(prepared);
+                let idx = |loc: &TransactionValidationErrorLocation| -> String {
+                    match loc {
+                        TransactionValidationErrorLocation::RootTransactionIntent(_) => "0".into(),
+                        TransactionValidationErrorLocation::NonRootSubintent(SubintentIndex(i), _) => (i + 1).to_string(),
+                        TransactionValidationErrorLocation::AcrossTransaction => "across".into(),
+                        o => format!("{:?}", o),
+                    }
+                };
+                let ans = match &r {
+                    Ok(val) => {
+                        let o = &val.overall_validity_range;
+                        let f = |x: Option<Instant>| x.map(|i| i.seconds_since_unix_epoch.to_string()).unwrap_or("-".into());
+                        format!("ok {} {} {} {} {}", o.epoch_range.start_epoch_inclusive.number(), o.epoch_range.end_epoch_exclusive.number(), f(o.proposer_timestamp_range.start_timestamp_inclusive), f(o.proposer_timestamp_range.end_timestamp_exclusive), val.total_signature_validations)
+                    }
+                    Err(TransactionValidationError::TransactionVersionNotPermitted(_)) => "err VersionNotPermitted".into(),
+                    Err(TransactionValidationError::SignatureValidationError(loc, SignatureValidationError::TooManySignatures { total, limit })) => {
+                        let l = match loc {
+                            TransactionValidationErrorLocation::RootTransactionIntent(_) => "root".to_string(),
+                            TransactionValidationErrorLocation::NonRootSubintent(SubintentIndex(i), _) => format!("sub{}", i),
+                            TransactionValidationErrorLocation::AcrossTransaction => "across".to_string(),
+                            o => format!("{:?}", o),
+                        };
+                        format!("err TooManySignatures {} {} {}", l, total, limit)
+                    }
+                    Err(TransactionValidationError::IntentValidationError(loc, e)) => match e {
+                        IntentValidationError::HeaderValidationError(h) => format!("err Header {} {}", idx(loc), herr(h)),
+                        IntentValidationError::InvalidMessage(m) => format!("err Message {} {}", idx(loc), &merr(m)[4..]),
+                        IntentValidationError::TooManyReferences { total, limit } => format!("err TooManyReferences {} {} {}", idx(loc), total, limit),
+                        IntentValidationError::ManifestValidationError(ManifestValidationError::TooManyInstructions) => format!("err TooManyInstructions {}", idx(loc)),
+                        o => format!("other {:?}", o).replace(['\n', '\t'], " "),
+                    },
+                    Err(o) => format!("other {:?}", o).replace(['\n', '\t'], " "),
+                };
+                // the property, stated directly on the quantities
+                let m = cfg.message_validation;
+                let instrs = |i: usize, x: &I| x.refs + x.pad + if i == 0 { xs.len() - 1 } else { 1 };
+                let each = xs.iter().enumerate().all(|(i, x)| {
+                    spec_net_epoch(&cfg, req, x.net, x.s, x.e) && !matches!((x.a, x.b), (Some(p), Some(q)) if p >= q)
+                        && x.msg.map(|l| 10 <= m.max_mime_type_length && l <= m.max_plaintext_message_length).unwrap_or(true)
+                        && x.refs <= cfg.max_references_per_intent && instrs(i, x) <= cfg.max_instructions && x.sigs <= cfg.max_signer_signatures_per_intent
+                });
+                let smax = xs.iter().map(|h| h.s).max().unwrap();
+                let emin = xs.iter().map(|h| h.e).min().unwrap();
+                let tmax = xs.iter().filter_map(|h| h.a).max();
+                let tmin = xs.iter().filter_map(|h| h.b).min();
+                let total_refs: usize = xs.iter().map(|x| x.refs).sum();
+                let total_sigs: usize = xs.iter().map(|x| x.sigs).sum::<usize>() + 1;
+                let spec = cfg.v2_transactions_allowed && each && cfg.min_tip_basis_points <= bps && bps <= cfg.max_tip_basis_points
+                    && smax < emin && !matches!((tmax, tmin), (Some(p), Some(q)) if p >= q)
+                    && total_refs <= cfg.max_total_references && total_sigs <= cfg.max_total_signature_validations;
+                if ans.starts_with("other") {
+                    // a non-limit validation failed: outside this property, but the stream is meant to avoid it
+                    return Answer::ok(ans);
+                }
+                if r.is_ok() != spec {
+                    return Answer::fail(ans, "tx2-accept-mismatch", format!("validate_notarized_v2 accepted={} but the documented limits say {}", r.is_ok(), spec));
+                }
+                if let Ok(val) = &r {
+                    let o = &val.overall_validity_range;
+                    if o.epoch_range.start_epoch_inclusive.number() != smax || o.epoch_range.end_epoch_exclusive.number() != emin || val.total_signature_validations != total_sigs {
+                        return Answer::fail(ans, "tx2-range-not-intersection", "overall validity range / signature total differ from intersection / sum");
+                    }
                 }
                 Answer::ok(ans)
             }
